@@ -23,13 +23,13 @@ const idleRereads = 10
 func Spec() *run.Spec {
 	return &run.Spec{
 		ID: "C11", Level: "exploration",
-		Rule: "case = one random DAG (shape chain/diamond/fan-in/shared/random, 3-25 harness-defined nodes.Struct nodes: unary, binary, 3-input, array and mixed inputs, string- and int-valued, order-sensitive; 1-6 sources of kind parameter.Value[T] / nodes.ValueNode[T]) driven through 20-200 operations " +
+		Rule: "case = one random DAG (shape chain/diamond/fan-in/shared/random, 3-25 harness-defined nodes.Struct nodes: unary, binary, 3-input, array and mixed inputs, string- and int-valued, order-sensitive, plus two kinds whose processor returns (fallback value, error) for some inputs and targeted fail -> read -> recover -> read sequences over them; 1-6 sources of kind parameter.Value[T] / nodes.ValueNode[T]) driven through 20-200 operations " +
 			"(parameter update, set/replace/clear a named input, array add/remove, read of an arbitrary node); every read is followed by 10 idle re-reads. After every operation: Version() delta == executions recorded by the processors (0 or 1) for every node, " +
 			"no execution outside a read, an executed node must have a change (parameter update in its transitive inputs or SetInput on the way, its own included) since its previous execution, the value read equals a from-scratch evaluation of the mirrored graph, State() agrees with the mirror's staleness. " +
 			"Phase lazy-inputs: the same with three more processor kinds that read only some of their wired inputs (Sel: condition picks one of two branches; First: first array entry only; Until: array entries up to the first odd value), plus targeted sequences (read while a branch is unread, change something below the unread branch, let another consumer process it, re-wire it, flip the condition, read: the value must come from the new branch); an execution is only flagged when no parameter in the node's wired transitive inputs and no wiring changed, State() must be Stale when an input the processors actually read changed. " +
 			"Non-trivial: the history re-reads a node whose cone contains a node with >= 2 dependencies at different versions (the state in which a permuted dependency order shows). Distinctness: shape / node-count bucket / source count / longest array bucket / history length bucket.",
 		Assumptions: []string{
-			"processors are pure functions of their inputs (no side effects besides the harness counter, no errors)",
+			"processors are pure functions of their inputs (no side effects besides the harness counter); two kinds (ChkI: negative input, ChkS: a third of all strings) return (fallback value, error): Value() must hand out that fallback (what nodes.Struct does with the result of Process()), an execution that ends in an error counts as one execution and +1 version like any other (behaviour of the unchanged tree), and State() of an up-to-date failed node may be Processed (unchanged tree) or Error",
 			"single goroutine: reads and edits are sequential (concurrency is C13)",
 			"a SetInput call counts as a wiring change even when it re-installs the same source, and an update call as a parameter change even when the value is the same (so a conservative implementation is not flagged); State() is not constrained in those two situations",
 			"graph size is bounded so that the number of dependency paths below any node stays <= 400 (polyform's Outdated() walks every path)",
@@ -47,6 +47,10 @@ func Spec() *run.Spec {
 			"ops_update_parameter.Value":               50,
 			"ops_update_nodes.ValueNode":               50,
 			"lazy_scenario_condition_flipped":          100,
+			"fail_scenario_recovered":                  100,
+			"fail_scenario_made_to_fail":               100,
+			"executions_ending_in_error":               500,
+			"reads_over_a_failed_node":                 500,
 			"lazy_scenario_branch_processed_elsewhere": 30,
 			"lazy_scenario_unread_input_rewired":       30,
 		},
@@ -259,6 +263,9 @@ func (h *hist) randomOp() {
 	if h.lazy && r.Intn(10) == 0 && h.lazyScenario() {
 		return
 	}
+	if r.Intn(14) == 0 && h.failScenario() {
+		return
+	}
 	for try := 0; try < 8; try++ {
 		x := r.Intn(100)
 		switch {
@@ -330,9 +337,12 @@ func (h *hist) randomOp() {
 
 // updateParam updates source k: same = re-send the current value; parity 0/1 forces
 // the parity of an int value (-1 = any).
-func (h *hist) updateParam(k int, same bool) { h.updateParamParity(k, same, -1) }
+func (h *hist) updateParam(k int, same bool) { h.updateParamOpts(k, same, -1, 0) }
 
-func (h *hist) updateParamParity(k int, same bool, parity int) {
+func (h *hist) updateParamParity(k int, same bool, parity int) { h.updateParamOpts(k, same, parity, 0) }
+
+// sign +1 / -1 forces the sign of an int value (0 = any).
+func (h *hist) updateParamOpts(k int, same bool, parity int, sign int) {
 	m := h.m
 	p := &m.params[k]
 	lp := h.lp[k]
@@ -362,7 +372,7 @@ func (h *hist) updateParamParity(k int, same bool, parity int) {
 			if parity >= 0 && v&1 != parity {
 				v++
 			}
-			if h.r.Intn(6) == 0 {
+			if (sign == 0 && h.r.Intn(6) == 0) || sign < 0 {
 				v = -v
 			}
 			p.changedHard = m.clock
@@ -379,6 +389,94 @@ func (h *hist) updateParamParity(k int, same bool, parity int) {
 	if same {
 		h.res.Count("ops_update_same_value", 1)
 	}
+}
+
+// paramsBelow lists the sources in the cone of ref rf.
+func (h *hist) paramsBelow(rf *ref) []int {
+	m := h.m
+	if rf == nil {
+		return nil
+	}
+	if rf.param {
+		return []int{rf.idx}
+	}
+	var ps []int
+	cl := m.closure(rf.idx)
+	seen := map[int]bool{}
+	for j := range m.nodes {
+		if cl[j] {
+			for _, x := range m.refs(j) {
+				if x.param && !seen[x.idx] {
+					seen[x.idx] = true
+					ps = append(ps, x.idx)
+				}
+			}
+		}
+	}
+	return ps
+}
+
+// failScenario drives one failing-capable node through failure and recovery while
+// something above it is read in every state: read, make the processor fail (or
+// succeed) by a parameter update below it, read, flip it back, read. The value
+// read must be the from-scratch value in the failed and in the recovered state.
+func (h *hist) failScenario() bool {
+	r, m := h.r, h.m
+	var cands []int
+	for i := range m.nodes {
+		if kinds[m.nodes[i].kind].fails && len(h.paramsBelow(m.nodes[i].named[0])) > 0 {
+			cands = append(cands, i)
+		}
+	}
+	if len(cands) == 0 {
+		return false
+	}
+	i := cands[r.Intn(len(cands))]
+	n := &m.nodes[i]
+	top := i
+	var above []int
+	for j := i + 1; j < len(m.nodes); j++ {
+		if m.closure(j)[i] {
+			above = append(above, j)
+		}
+	}
+	if len(above) > 0 && r.Intn(4) != 0 {
+		top = above[r.Intn(len(above))]
+	}
+	h.res.Count("fail_scenarios", 1)
+	h.read(top)
+	for round := 0; round < 2 && !h.dead; round++ {
+		was := m.failed(i)
+		ps := h.paramsBelow(n.named[0])
+		for try := 0; try < 6 && !h.dead; try++ {
+			k := ps[r.Intn(len(ps))]
+			sign := 0
+			if n.named[0].param && m.params[k].t == tI {
+				sign = -1
+				if was {
+					sign = 1
+				}
+			}
+			h.updateParamOpts(k, false, -1, sign)
+			if m.failed(i) != was {
+				break
+			}
+		}
+		if m.failed(i) != was {
+			if was {
+				h.res.Count("fail_scenario_recovered", 1)
+			} else {
+				h.res.Count("fail_scenario_made_to_fail", 1)
+			}
+		}
+		if r.Intn(3) == 0 && !h.dead {
+			h.read(i) // sometimes the failing node itself is read first
+		}
+		if !h.dead {
+			h.read(top)
+		}
+	}
+	return true
 }
 
 // lazyScenario (phase lazy-inputs) drives one conditional node through the
@@ -598,7 +696,7 @@ func (h *hist) read(i int) {
 	m := h.m
 	// what the read is about to see (evidence / non-triviality)
 	clos := m.closure(i)
-	mixed, arr10 := false, false
+	mixed, arr10, failedBelow := false, false, false
 	for j := range m.nodes {
 		if !clos[j] {
 			continue
@@ -606,6 +704,9 @@ func (h *hist) read(i int) {
 		rs := m.refs(j)
 		if len(m.nodes[j].arr) >= 10 {
 			arr10 = true
+		}
+		if j != i && m.failed(j) {
+			failedBelow = true
 		}
 		if len(rs) >= 2 {
 			v0 := h.version(rs[0])
@@ -652,6 +753,9 @@ func (h *hist) read(i int) {
 	if mixed {
 		h.mixedReads++
 		h.res.Count("reads_mixed_dep_versions", 1)
+	}
+	if failedBelow {
+		h.res.Count("reads_over_a_failed_node", 1)
 	}
 	if arr10 {
 		h.arr10Reads++
@@ -743,6 +847,9 @@ func (h *hist) step(desc string, readIdx int, idle bool, opKind string, f func()
 			continue
 		}
 		h.res.Count("executions", int64(de))
+		if m.failed(i) {
+			h.res.Count("executions_ending_in_error", int64(de))
+		}
 		if readIdx < 0 {
 			h.violate("execution-without-read", "nodes.Struct."+opKind, inClass,
 				fmt.Sprintf("operation %q executed n%d (%s) although nothing was read", desc, i, kn))
@@ -829,7 +936,10 @@ func (h *hist) checkStates(initial bool) {
 			h.violate("state-not-stale", "nodes.Struct.State", "after "+opClass(lastOp(h.ops)),
 				fmt.Sprintf("after %q: State() of n%d (%s) = %d but %s", lastOp(h.ops), i, kn, st, why))
 		}
-		if mustProcessed && st != nodes.Processed && !h.lazy {
+		if mustProcessed && st == nodes.Error && m.failed(i) {
+			// an up-to-date node whose processor returned an error may say so
+			h.res.Count("states_error_of_failed_node", 1)
+		} else if mustProcessed && st != nodes.Processed && !h.lazy {
 			h.violate("state-not-processed", "nodes.Struct.State", "after "+opClass(lastOp(h.ops)),
 				fmt.Sprintf("after %q: State() of n%d (%s) = %d although nothing in its transitive inputs changed since it last executed", lastOp(h.ops), i, kn, st))
 		}
